@@ -34,6 +34,14 @@ checks = {
          "Real bidengine service + order monitors + real bus; every outside call parks until the seeded scheduler completes or fails it, chain events are delivered/lost at every pipeline point, clock jumps fire the bid timeout, the provider crashes and restarts (catch-up with and without an existing bid). Oracle over the call log: <=1 create-bid per order and incarnation, price <= max, reservation completed before the bid, and after handling ended without LeaseWon every granted reservation is followed by Unreserve and every placed bid by a close-bid. Layer 1 (one stimulus per quiescent point)."),
  "C15": ("provsim", "seeded operation histories on the real bus in a synctest bubble; operation-by-operation conformance with a per-subscriber queue model, every operation must return by the next quiescent point",
          "publish/subscribe/clone/read/close histories on the real pubsub bus (real go-lifecycle), compared with a queue model: every subscriber gets every event published after its subscription exactly once in order, a clone inherits exactly the undelivered events, stalled readers and closes never block publishers or others. Layer 1: histories are sequential at the API (each operation completes before the next starts); goroutine-level interleavings inside the bus are not enumerated."),
+ "C14": ("provsim", "seeded actor-level scheduling of the real cluster service and deployment managers against parked Deploy/Teardown/Inventory/LeaseStatus calls; interval-log oracle + bounded-progress drain",
+         "Real cluster.NewService (service loop, inventory, hostname service, managers, monitors, withdrawal) over a real bus; manifest updates, lease-closed, completion ok/error of every parked cluster call, clock jumps. Oracle over the [start,end) log per lease: no two cluster operations overlap, no deploy starts after the lease-closed signal was delivered to a managed lease, teardown after the last deploy and then reservation and hostnames released, otherwise the last deploy uses the latest manifest - within a bounded fair drain. Layer 1; the hostname-reservation race (DESIGN.md S7) needs goroutine-level scheduling."),
+ "C20": ("provsim", "seeded actor-level scheduling of the real manifest service against a parked deployment fetch with lease/version/close events and concurrent submissions; reply/announcement oracle + bounded drain",
+         "Real manifest service/manager/watchdog over a real bus; LeaseWon, submissions (valid/invalid/stale, some with deadlines) from independent tasks, fetch completion ok/error/late, version updates, lease removal, deployment close, clock. Oracle: every submission is answered within the drain budget; an announcement only for a lease the provider can still believe it holds, after a successful fetch, carrying a validated manifest that is the latest one; acceptance implies announcement."),
+ "C10": ("provsim", "same simulated manifest-service histories as C20; window oracle on the on-chain version plus harness-side multiset comparison; hash checks on generated manifests",
+         "Accepted => the manifest's hash (harness canonical-JSON sha256) was the on-chain version at some instant between submission and reply and per-group unit multisets, counts and endpoint counts equal the on-chain groups; a manifest with equal per-group totals is never rejected by the resource comparison; re-serialisation with another key order keeps the hash, any single field change alters it. Input-dominated: the mutator samples manifests, the simulator adds the timing of version updates and fetches."),
+ "C11": ("kubesim", "seeded multi-lease Deploy/redeploy/Teardown histories of the real kube client against fake clientsets with API faults at an arbitrary call; full-cluster scan and namespace-isolation diff after every operation",
+         "Real provider/cluster/kube builders/apply/cleanup/Deploy/TeardownLease against client-go and akash CRD fake clientsets with a reactor that fails or loses the response of the k-th API call; after every operation every namespace/deployment/service/ingress/network policy in the tracker is checked (namespace derivation re-implemented, security context, limits == leased, requests <= limits, network policy rules parsed) and the before/after dump shows that an operation on one lease touched nothing outside its namespace. Input/configuration-dominated; multi-lease histories and API faults are the simulated part."),
 }
 
 not_applicable = [
@@ -42,11 +50,7 @@ not_applicable = [
 # properties whose engines are not built yet are listed here with the reason until their check exists
 pending = {
  "C09": "applicable (gwsim engine, DESIGN.md section 4) - check not built yet in this revision",
- "C10": "applicable (provsim manifest harness) - check not built yet in this revision",
- "C11": "applicable (kubesim engine) - check not built yet in this revision",
  "C12": "applicable (provsim) - check not built yet in this revision",
- "C14": "applicable (provsim) - check not built yet in this revision",
- "C20": "applicable (provsim) - check not built yet in this revision",
 }
 
 def main():
@@ -90,8 +94,8 @@ def main():
         json.dump(man, f, indent=1)
         f.write("\n")
 
-EXTRA_NOTES = {"provsim": "Trusted base: Go runtime and testing/synctest (fake clock, quiescence detection); chain, cluster and pricing are scripted stubs; Layer 1 explores the order in which stimuli reach the actors, not interleavings inside one stimulus' propagation; sampling only."}
-ENGINE_TEXT = {"provsim": "provider daemon actors (bid engine, cluster service, manifest service, event bus) in a synctest bubble under a seeded scheduler"}
+EXTRA_NOTES = {"kubesim": "Trusted base: client-go/akash fake clientsets (object tracker) with harness-served DeleteCollection, sorted lists and namespace garbage collection; no real API server, admission or CNI; sampling only.", "provsim": "Trusted base: Go runtime and testing/synctest (fake clock, quiescence detection); chain, cluster and pricing are scripted stubs; Layer 1 explores the order in which stimuli reach the actors, not interleavings inside one stimulus' propagation; sampling only."}
+ENGINE_TEXT = {"kubesim": "real provider/cluster/kube client against fake Kubernetes clientsets with seeded API faults", "provsim": "provider daemon actors (bid engine, cluster service, manifest service, event bus) in a synctest bubble under a seeded scheduler"}
 
 if __name__ == "__main__":
     main()
